@@ -540,6 +540,9 @@ def gen_interp(rng, kind):
         # comparison of cache keys (np.isclose) would confuse neighbouring cells here
         delta = rng.choice([0.5, 0.25, 0.125, 1.0])
         origin = rng.choice([58000.0, 1024.0, 57000.5, -4096.0])
+        if fam == 1:            # exp(c3 * x) would overflow
+            fam, deg = 0, 2
+            c[2] = rng.randint(1, 16) / 8
     else:
         delta = rng.choice([0.1, 0.2, 0.25, 0.5, 1.0, 0.05, 0.01, 0.125])
         origin = rng.choice([0.0, 1.0, -3.0, 1.5, -1.5, 2.25, 10.0, -0.3, 1.05])
@@ -639,8 +642,9 @@ def run_interp(ctx, exe, cases):
             prf = np.array([(x,) for x in xs_full], dtype=[('p', np.float64)])
             (v2, g2) = fresh(tdm=StubTDM(case['n_per'], ident), eventdata=None, params_recarray=prf)
             scale = max(1.0, max(abs(v) for v in vals))
-            if (max(abs(a - b) for a, b in zip(vals, v2)) > 1e-9 * scale
-                    or max(abs(a - b) for a, b in zip(gr, np.asarray(g2)[0])) > 1e-9 * scale / delta):
+            # same floating-point operations on the same inputs: equal up to a few ulps at most
+            if (max(abs(a - b) for a, b in zip(vals, v2)) > 1e-14 * scale
+                    or max(abs(a - b) for a, b in zip(gr, np.asarray(g2)[0])) > 1e-14 * scale / delta):
                 ctx.violation(Cls.__name__ + '.__call__', 'cached-or-shared-differs-from-fresh',
                               'result differs from a fresh per-source evaluation', case=dict(case, calls=calls),
                               impl=[vals, gr], model=[list(map(float, v2)), list(map(float, np.asarray(g2)[0]))])
